@@ -192,6 +192,12 @@ class Table(Vector):
 		return super(Vector, cls).__new__(cls)
 
 	def __init__(self, initial=(), dtype=None, name=None, as_row=False):
+		# Vector.__new__ hands back an already constructed Table for a sequence of
+		# vectors; Python then calls __init__ on it a second time. Never initialise
+		# twice: it would swap the column tuple and leave a stale alias registration.
+		if '_underlying' in self.__dict__:
+			return
+
 		# Handle dict initialization {name: values, ...}
 		if isinstance(initial, dict):
 			# Create Vectors with names from dict keys
